@@ -33,7 +33,7 @@ def gen3(parent):
 
 def run(tier):
     res = Result(PID)
-    N, NA = (5, 3) if tier == "quick" else (6, 4)
+    N, NA = (5, 3) if tier == "quick" else (7, 4)
     rnd = random.Random(seed())
     allf = [f for n in range(1, N + 1) for f in F.forests(n)]
     rnd.shuffle(allf)
